@@ -6,7 +6,8 @@ From Coq Require Import String List NArith Arith.
 From CMinx Require Import Base.Str Model.Lexer Model.Parser Model.Aggregator Model.Pipeline
      Model.Naming Model.Walk
      Proofs.LexerFacts Proofs.ParserFacts Proofs.PipelineFacts Proofs.WalkFacts Proofs.GrammarFacts
-     Gen.GrammarSource Proofs.GrammarBaseline Proofs.GrammarPins.
+     Gen.GrammarSource Proofs.GrammarBaseline Proofs.GrammarPins
+     Model.Config Gen.ConfigData Base.PyMainSem Gen.PyMainSource Proofs.ConfigFacts Proofs.RunFacts Proofs.MainSourceMatch.
 Import ListNotations.
 
 (* no source character is skipped: the pieces (tokens, whitespace, comments) concatenate to the source *)
@@ -131,3 +132,26 @@ Theorem C06_model_rules_are_grammar_rules :
   /\ map (fun r => kind_name (fst r)) (filter (fun r => skipped (fst r)) rules) = g4_skipped.
 Proof. exact (conj model_rules_are_grammar_rules (conj model_token_numbers model_skip_set)). Qed.
 Print Assumptions C06_model_rules_are_grammar_rules.
+
+(* pymain2coq: the control flow of main() as regenerated from src/cminx/__init__.py on every run
+   (argument parsing, stacking of the sources, template validation, the exclude-filter loop, the
+   loop over the inputs) equals the specification model_main, for every environment, document
+   function and argument vector. *)
+Theorem C06_main_matches_source :
+  forall env document toks, py_run (main env document toks) = model_main env document toks.
+Proof. exact main_matches_source. Qed.
+Print Assumptions C06_main_matches_source.
+
+Theorem C06_stopping_input_is_last : forall env document toks p stack st pre f post,
+  parse_args cli_table toks = Some p ->
+  consulted env p = Some stack ->
+  settings_of (env_cwd env) stack template = Some st ->
+  forallb (excl_src_ok excl_key) stack = true ->
+  p_positional p = pre ++ f :: post ->
+  forallb run_ok (map (fun x => document x (accepted_object stack st)) pre) = true ->
+  existsb is_stop (document f (accepted_object stack st)) = true ->
+  py_run (main env document toks)
+  = Halted (concat (map (fun x => document x (accepted_object stack st)) pre)
+            ++ document f (accepted_object stack st)).
+Proof. exact stopping_input_is_last. Qed.
+Print Assumptions C06_stopping_input_is_last.
